@@ -98,6 +98,11 @@ where
         assert_eq!(res.n(), self.n() as u32);
         assert_eq!(sk.n(), self.n() as u32);
         assert_eq!(pt.n(), self.n() as u32);
+        assert_eq!(
+            pt.base2k(),
+            res.base2k(),
+            "plaintext and ciphertext must share base2k (the plaintext is added limb-wise)"
+        );
         assert!(
             scratch.available() >= self.glwe_encrypt_sk_tmp_bytes(res),
             "scratch.available(): {} < GLWE::encrypt_sk_tmp_bytes: {}",
